@@ -216,6 +216,147 @@ def _scalar_arithmetic_by_evaluation(ctx, ck, base, homothety, comp) -> bool:
     return True
 
 
+def _matmul_by_evaluation(ctx, ck, base, comp, identity, homothety) -> bool:
+    """S2/S5 for `@`, decided by evaluating L @ R (sa/axinterp.py, Python's operator protocol included) on every pair of a
+    family of square operands: opaque operators A, B, their lazy inverses and a lazy transpose, the identity, two scalar
+    operators, and every composition of two of A, B, A.I, B.I (and a scalar next to A).  Opaque operators satisfy no relation
+    but X.I X = X X.I = I, so the product is right exactly when the factors of the result, read left to right, equal the
+    factors of L followed by those of R in the free group on {A, B, A.T} (identities dropped, adjacent inverse pairs
+    cancelled) and the scalars of the result multiply to those of L and R.  Returns True when decided."""
+    import itertools
+
+    from ..axinterp import Interp, Obj, Opaque, Raised, StructLeaf, Sym, Undecided, UNK
+    from .. import run as _run
+
+    if _run.CONTROL_EXPECT and not _run.CONTROL_EXPECT.endswith(('S2', 'S5', 'M9')):
+        return False
+    world, table = ctx.world, ctx.table
+    generic = table.find('furax._base.dense.DenseBlockDiagonalOperator')
+    inv_cls = table.find(f'{CORE}.InverseOperator')
+    tr_cls = table.find(f'{CORE}.TransposeOperator')
+    out_fn = base.own.get('out_structure')
+    if None in (generic, inv_cls, tr_cls):
+        return False
+    S = StructLeaf(((frozenset({'s'}), 3),))
+
+    def gen(name):
+        return Obj(generic, {'_in_structure': S, '__out__': S, 'name': name})
+
+    A, B = gen('A'), gen('B')
+    iA, iB = Obj(inv_cls, {'operator': A, '__out__': S}), Obj(inv_cls, {'operator': B, '__out__': S})
+    tA = Obj(tr_cls, {'operator': A, '__out__': S})
+    I = Obj(identity, {'_in_structure': S, '__out__': S})
+    H0, H1 = (Obj(homothety, {'value': Opaque(f'k{i}'), '_in_structure': S, '__out__': S}) for i in (0, 1))
+    names = {id(A): 'A', id(B): 'B', id(iA): 'A.I', id(iB): 'B.I', id(tA): 'A.T', id(I): 'I', id(H0): 'k0', id(H1): 'k1'}
+    letters = {id(A): ('A', 1), id(B): ('B', 1), id(iA): ('A', -1), id(iB): ('B', -1), id(tA): ('At', 1)}
+
+    def compose(*ops):
+        c = Obj(comp, {'operands': list(ops), '__out__': S})
+        names[id(c)] = '(' + ' @ '.join(names[id(o)] for o in ops) + ')'
+        return c
+
+    family = [A, B, iA, iB, tA, I, H0, H1]
+    family += [compose(x, y) for x, y in itertools.product((A, B, iA, iB), repeat=2) if not (letters[id(x)][0] == letters[id(y)][0] and letters[id(x)][1] != letters[id(y)][1])]
+    family += [compose(H0, A), compose(A, H0)]
+
+    def scalars_of(v):
+        if isinstance(v, Sym) and v.op == '*':
+            a_, b_ = scalars_of(v.args[0]), scalars_of(v.args[1])
+            return None if a_ is None or b_ is None else a_ + b_
+        if isinstance(v, Sym) and v.op in ('jnp.asarray', 'jnp.array') and v.args:
+            return scalars_of(v.args[0])
+        if isinstance(v, Opaque):
+            return [v.name]
+        if v == 1:
+            return []
+        return None
+
+    def word(o):
+        """(letters, scalar names) of an operand, or None when it holds something unknown."""
+        if not isinstance(o, Obj):
+            return None
+        if id(o) in letters:
+            return [letters[id(o)]], []
+        if o.cls is identity:
+            return [], []
+        if o.cls is homothety:
+            sc = scalars_of(o.attrs.get('value'))
+            return None if sc is None else ([], sc)
+        if o.cls is comp:
+            ls, ks = [], []
+            ops = o.attrs.get('operands')
+            if not isinstance(ops, (list, tuple)):
+                return None
+            for x in ops:
+                w = word(x)
+                if w is None:
+                    return None
+                ls += w[0]
+                ks += w[1]
+            return ls, ks
+        if table.is_subclass(o.cls, inv_cls) and isinstance(o.attrs.get('operator'), Obj):
+            w = word(o.attrs['operator'])
+            return None if w is None or w[1] else ([(n_, -e_) for n_, e_ in reversed(w[0])], [])
+        return None
+
+    def free(ls):
+        out = []
+        for l_ in ls:
+            if out and out[-1][0] == l_[0] and out[-1][1] == -l_[1]:
+                out.pop()
+            else:
+                out.append(l_)
+        return out
+
+    it = Interp(world, table, budget=200_000)
+    it.symbolic = True
+    it.constructible = {k.qual for k in table.operators()}
+    if isinstance(out_fn, ast.FunctionDef):
+        it.summaries[id(out_fn)] = lambda args, kwargs: args[0].attrs.get('__out__', UNK)
+    problems: list[str] = []
+    n = 0
+    for L, R in itertools.product(family, repeat=2):
+        text = f'{names[id(L)]} @ {names[id(R)]}'
+        it.steps = 0
+        del it.degraded[:]
+        n += 1
+        try:
+            res = it._object_binop(ast.MatMult, L, R)
+        except Raised as exc:
+            problems.append(f'{text} raises {exc.name}')
+            continue
+        except Undecided as exc:
+            ck.note(f'S2: {text} could not be evaluated: {exc}' + (f' [{it.degraded[0]}]' if it.degraded else ''))
+            return False
+        if it.degraded or res is UNK:
+            ck.note(f'S2: {text} could not be evaluated: {(it.degraded or ["unknown result"])[0]}')
+            return False
+        got, wl, wr = word(res), word(L), word(R)
+        if got is None:
+            ck.note(f'S2: the result of {text} is not a product of the given operands: not decided by evaluation')
+            return False
+        want = free(wl[0] + wr[0]), sorted(wl[1] + wr[1])
+        if (free(got[0]), sorted(got[1])) != want:
+            show_w = lambda w: ' '.join(n_ + ('' if e_ == 1 else '^-1') for n_, e_ in w[0]) or 'I'  # noqa: E731
+            problems.append(f'{text} is built as the product {show_w(got)}' + (f' with scalars {got[1]}' if got[1] or want[1] else '') + f', which is not {show_w(want)}' + (f' with scalars {want[1]}' if got[1] or want[1] else ''))
+    mm = table.resolve(base, '__matmul__')
+    ck.expect('S2', not problems, mm.node if mm is not None else base.node, f'L @ R holds the factors of L then those of R (identities dropped, X.I next to X cancelled, scalars multiplied) for all {n} pairs of '
+              f'{len(family)} operands (opaque operators, lazy inverses / transpose, identity, scalars, compositions of two)',
+              f'{problems[0] if problems else ""} ({len(problems)} of {n} products)', instance='@ by evaluation', semantic=True)
+    ck.floor('S2', n, 400, 'products L @ R evaluated')
+    return True
+
+
+def _supersede_matmul_forms(ck, start: int) -> None:
+    kept = []
+    for i, o in enumerate(ck.obs):
+        if i >= start and o.rule.endswith(('S2', 'S5')) and o.status == 'incomplete' and 'matmul__' in (o.construct + o.how):
+            ck.note(f'{o.rule} [{o.construct}] not decided structurally ({o.how[:100]}); superseded by the evaluation of the products')
+            continue
+        kept.append(o)
+    ck.obs[:] = kept
+
+
 def run(ctx, ck) -> None:
     world, table = ctx.world, ctx.table
     ck.trust('Python binary-operator dispatch (forward, then reflected on NotImplemented when the types differ)',
@@ -244,6 +385,8 @@ def run(ctx, ck) -> None:
                 _check_scalar(ck, world, table, cls, name, fn, homothety)
     if scalar_decided:
         _supersede_scalar_forms(ck, s4_start)
+    if _matmul_by_evaluation(ctx, ck, base, comp, identity, homothety):
+        _supersede_matmul_forms(ck, s4_start)
     ck.floor('S1', ndunders, 16, 'arithmetic dunders on operator classes')
     ck.floor('S1', npaths, 14, 'operator-returning paths of structural binary dunders')
 
